@@ -92,7 +92,18 @@ fn run_one(ctx: &mut Ctx, section: &str, body: &str, class: &str, nontrivial: bo
     ctx.case(hash_str(&src), nontrivial);
     ctx.class(class);
     guard(section, "src", &src);
-    match run_text(&src) {
+    let outcome = run_text(&src);
+    if ctx.want_sample() && nontrivial && ctx.res.evals % 1009 == 17 {
+        let ended = match &outcome {
+            Outcome::Ran(r) => match &r.err {
+                Some((m, _)) => format!("runtime error: {}", m),
+                None => format!("value {}", r.last.show().chars().take(60).collect::<String>()),
+            },
+            o => o.tag(),
+        };
+        ctx.sample(json!({"section": section, "program": body, "ended_as": ended}));
+    }
+    match outcome {
         Outcome::Panic(p) => {
             ctx.report(Violation::new(section, p.signature(), format!("{}\n--- program\n{}", p.describe(), src), json!({"src": body})));
         }
